@@ -238,6 +238,7 @@ def run(ctx):
         r4.fail(fsb.qualname, "append", fsb.file, fsb.lineno, "_Simu.Save_Iter", f"unexpected history append(s): {[norm_text(a) for a in appends]}")
 
     mesh_roundtrip_rule(ctx)
+    history_paths_rule(ctx)
 
     # R15.6
     r6 = ctx.rule("R15.6", "every Result override restores the requested iteration before computing", min_instances=7)
@@ -450,3 +451,43 @@ def mesh_roundtrip_rule(ctx, rid="R15.5"):
             r5.fail(fload.qualname, key, fload.file, fload.lineno, "Load_Mesh", msg)
     else:
         r5.ok("round trip: groups, order, connectivity, coordinates, partition data and tags come back")
+
+
+def history_paths_rule(ctx):
+    """R15.13: a history entry that is a path is resolved against the place it was written to, not against whatever
+    `self.folder` (or a new `folder` argument) is when it is read: every `Load_Mesh(Folder.Join(<base>, <entry of the mesh
+    history>))` in _Simu must take <base> from state recorded when the entry was written.  (The iteration files are
+    stored as full paths, R15.4; the mesh files are stored relative to the save folder.)"""
+    from ..flow import Locals
+
+    repo = ctx.repo
+    r = ctx.rule("R15.13", "mesh files of the history are located where they were written: no Load_Mesh(Folder.Join(self.folder | folder argument, <mesh history entry>)) at read time", min_instances=1)
+    simu = repo.cls(SIMU)
+    for nm, f in sorted(simu.methods.items()):
+        if f.cls is not simu:
+            continue
+        L = Locals(f.node)
+        params = set(f.params())
+        for n in ast.walk(f.node):
+            if not (isinstance(n, ast.Call) and (dotted(n.func) or "").split(".")[-1] == "Load_Mesh" and n.args):
+                continue
+            a = L.resolve(n.args[0])
+            if not (isinstance(a, ast.Call) and (dotted(a.func) or "").endswith("Join") and len(a.args) >= 2):
+                continue
+            base, entry = a.args[0], a.args[1]
+            # the entry comes from the mesh history?
+            etxt = L.text(entry)
+            if isinstance(entry, ast.Name):
+                etxt += " " + " ".join(norm_text(d) for d in L.all_defs(entry.id))
+                for lp in ast.walk(f.node):
+                    if isinstance(lp, ast.For) and any(isinstance(x, ast.Name) and x.id == entry.id for x in ast.walk(lp.target)):
+                        etxt += " " + norm_text(lp.iter)
+            if "listMesh" not in etxt:
+                continue
+            r.instance(fn=f.qualname)
+            btxt = L.text(base)
+            current = btxt in ("self.folder", "self.__folder") or (isinstance(base, ast.Name) and base.id in params)
+            if current:
+                r.fail(f.qualname, f"path-resolved-at-read-time:{f.node.name.lstrip('_')}", f.file, n.lineno, f"_Simu.{f.node.name}", f"the mesh file of a history entry is looked up under `{btxt}` as it is NOW (`{norm_text(n)[:70]}`): after the save folder changed (simu.folder = other, or a second Save(other)) the meshes written by the first save are not found")
+            else:
+                r.ok(f"_Simu.{f.node.name}: mesh entries resolved against {btxt}")
